@@ -269,6 +269,10 @@ void mon_c08(CaseCtx &c, Rng &rng){
         }
         if (s.kind == Step::aniso && is_curved(s.type) && !s.limits.empty() && rng.coin(0.6))
             s.limits[(size_t) rng.range(0, d - 1)] = -1; // curved (possibly non-lower) selections with an unlimited direction
+        // generator limit (10.3): a curved selection with an unlimited direction can ask for level ~20 in that direction; Fourier rules have 3^l points
+        // (int overflow in pow3) and the greedy sequences cost a nested optimisation per node beyond their tables - those keep finite limits
+        if (s.kind == Step::aniso && is_curved(s.type) && !s.limits.empty() && (h.g.isFourier() || ((h.g.isSequence() || h.g.isGlobal()) && is_optimized_sequence(h.g.getRule()))))
+            for(auto &l : s.limits) if (l < 0) l = h.g.isFourier() ? 4 : 5;
         if (s.kind == Step::begin_c){ std::vector<double> nd = h.g.getNeededPoints(); offered.insert(offered.end(), nd.begin(), nd.end()); } // they become the initial candidates
         if (!s.limits.empty()){
             // New limits never fall below the levels that are already present (loaded, needed or previously offered candidates): tightening
